@@ -152,6 +152,31 @@ func errTag() string {
 
 func nilTag() string { return "<nil" + errTag() + ">" }
 
+// typeName is the Python type name of o; the container and buffer readers check it before touching the object.
+func typeName(o *py.Object) string {
+	t := o.Type()
+	if t == nil {
+		return "?" + errTag()
+	}
+	n := t.TypeName()
+	if n == nil {
+		return "?" + errTag()
+	}
+	var k int
+	p := asUTF8AndSize(n, &k)
+	if p == nil {
+		return "?" + errTag()
+	}
+	return c.GoString(p, k)
+}
+
+func wrongType(o *py.Object, want string) string {
+	if tn := typeName(o); tn != want {
+		return "<type:" + tn + ">"
+	}
+	return ""
+}
+
 func R(uid string, payload string) { println("R", uid, payload) }
 
 func DStr(o *py.Object) string {
@@ -255,6 +280,9 @@ func DBA(o *py.Object) string {
 	if o == nil {
 		return nilTag()
 	}
+	if w := wrongType(o, "bytearray"); w != "" {
+		return w
+	}
 	n := byteArraySize(o)
 	p := byteArrayAsString(o)
 	if p == nil {
@@ -267,6 +295,9 @@ func DBY(o *py.Object) string {
 	if o == nil {
 		return nilTag()
 	}
+	if w := wrongType(o, "bytes"); w != "" {
+		return w
+	}
 	p := bytesAsString(o)
 	if p == nil {
 		return "<notbytes" + errTag() + ">"
@@ -277,6 +308,9 @@ func DBY(o *py.Object) string {
 func DL(o *py.Object, n int, f func(i int, it *py.Object) string) string {
 	if o == nil {
 		return nilTag()
+	}
+	if w := wrongType(o, "list"); w != "" {
+		return w
 	}
 	k := o.ListLen()
 	s := "L" + I64(int64(k)) + "["
@@ -294,6 +328,9 @@ func DL(o *py.Object, n int, f func(i int, it *py.Object) string) string {
 func DT(o *py.Object, n int, f func(i int, it *py.Object) string) string {
 	if o == nil {
 		return nilTag()
+	}
+	if w := wrongType(o, "tuple"); w != "" {
+		return w
 	}
 	k := o.TupleLen()
 	s := "T" + I64(int64(k)) + "("
